@@ -14,18 +14,18 @@ import (
 // apply (DESIGN.md §3, C03).
 
 type jsite struct {
-	val    *jVal      // the value at the site
-	holder *jVal      // object or array containing it (nil for the root)
-	key    string     // member key when holder is an object
-	idx    int        // index when holder is an array
-	tf     *tField    // field the value belongs to (nil for the root)
-	kind   string     // element kind: scalar kinds, enum, object, oneof, j5any, pbany, "array", "map", "exposed-oneof"
-	pos    string     // top | nested | array | map | oneof-arm
-	tm     *tMsg      // for object/oneof sites: the modelled type of the body
-	arms   []*tField  // for oneof bodies (wrapper or exposed): the possible arms
-	body   bool       // the site is an object body whose members are J5 properties
-	absent []*tField  // for object bodies: properties with no member (candidates for explicit null)
-	groupsAbsent []string // exposed oneof groups with no member
+	val          *jVal     // the value at the site
+	holder       *jVal     // object or array containing it (nil for the root)
+	key          string    // member key when holder is an object
+	idx          int       // index when holder is an array
+	tf           *tField   // field the value belongs to (nil for the root)
+	kind         string    // element kind: scalar kinds, enum, object, oneof, j5any, pbany, "array", "map", "exposed-oneof"
+	pos          string    // top | nested | array | map | oneof-arm
+	tm           *tMsg     // for object/oneof sites: the modelled type of the body
+	arms         []*tField // for oneof bodies (wrapper or exposed): the possible arms
+	body         bool      // the site is an object body whose members are J5 properties
+	absent       []*tField // for object bodies: properties with no member (candidates for explicit null)
+	groupsAbsent []string  // exposed oneof groups with no member
 }
 
 type jwalker struct {
@@ -337,7 +337,7 @@ func faultsOf(model *tModel, s *jsite) []jfault {
 		out = append(out, jfault{"unknown-enum-name", jS("NOT_A_DEFINED_VALUE")})
 		if e := model.enum(s.tf.Ref); e != nil && s.val.Kind == jStr {
 			out = append(out, jfault{"unknown-enum-name", jS("WRONG_PREFIX_" + s.val.Str)})
-			out = append(out, jfault{"unknown-enum-name", jS(strings.ToLower(e.Prefix + s.val.Str) + "x")})
+			out = append(out, jfault{"unknown-enum-name", jS(strings.ToLower(e.Prefix+s.val.Str) + "x")})
 		}
 	}
 	return out
